@@ -104,6 +104,10 @@ fn check_result(ctx: &mut Ctx, fen: &str, l1: &[Mv], k: u64, o: &Outcome, tf_use
         }
     } else if !l1.is_empty() && o.completed.is_some() {
         return ctx.fail(Prop::C11, "search.no-move-after-pass", feat, format!("k={k}: a pass completed (depth {:?}) but no move was returned in {fen}", o.completed));
+    } else if !l1.is_empty() && o.polls <= k {
+        // the clock never reported expiry during this call: the limit let every pass the
+        // engine wanted to make finish, so "no move" cannot be blamed on the limit
+        return ctx.fail(Prop::C11, "search.no-move-without-expiry", format!("history={}", if tf_used { "nonempty" } else { "empty" }), format!("k={k}: the search returned on its own after {} polls, before the limit expired, without a move although legal moves exist in {fen}", o.polls));
     }
     Ok(())
 }
